@@ -1,12 +1,138 @@
 import Driver.Util
-/- Line-protocol handler for the `hash` model (stub until the model exists). -/
+import Munge.Model.Replay
+/- Line-protocol handler for the `hash` model: `Munge.Hash` (raw table over integer keys),
+   `Munge.Replay` (replay.c on top of it) and the daemon-level decode step.  The C side is
+   harness/h_hash.c; every op prints exactly one line. -/
 namespace Driver.Hash
+open Munge Munge.C Munge.Hash Munge.Replay Munge.Gen.Hash
 
 structure St where
-  dummy : Unit := ()
+  replay : Replay.State := {}
+  cfg : Replay.Cfg := {}
+  now : Int := 0
+  raw : Table Int := Table.empty 1
+  rawShift : Nat := 0
 
 def init : St := {}
 
-def step (st : St) (_args : List String) : St × String := (st, "bad-op")
+def sgn (x : Int) : Int := if x < 0 then -1 else if x > 0 then 1 else 0
+
+/-- comparator / key function of the raw table in the harness: numeric order, slot of `k` is `(k >>> shift) % size` -/
+def rawCmp (a b : Int) : Int := if a < b then -1 else if a > b then 1 else 0
+def rawKey (shift : Nat) (k : Int) : Nat := k.toNat >>> shift
+
+def showKey (k : Key) : String := s!"{Hex.showHex k.mac}:{k.exp}"
+
+def count (st : Replay.State) : Int := match st.table with | some t => t.count | none => -1
+
+def showOutcome (o : Outcome) (n : Int) : String :=
+  let ins := match o.insertRet with | some r => toString r | none => "x"
+  s!"code={o.code} delivered={if o.delivered then 1 else 0} ins={ins} withdrew={if o.withdrew then 1 else 0} n={n}"
+
+def b (s : String) : Option Bool := match s with | "1" => some true | "0" => some false | _ => none
+
+def step (st : St) (args : List String) : St × String :=
+  match args with
+  | ["init"] => ({ st with replay := Replay.init st.replay }, "ok")
+  | ["fini"] => ({ st with replay := Replay.fini st.replay }, "ok")
+  | ["bench", v] => match b v with
+    | some v => ({ st with replay := { st.replay with benchmark := v } }, "ok")
+    | none => (st, "bad-op")
+  | ["conf", a, b', c] => match intArg a, intArg b', intArg c with
+    | some a, some b', some c => ({ st with cfg := ⟨a, b', c⟩ }, "ok")
+    | _, _, _ => (st, "bad-op")
+  | ["clock", t] => match intArg t with
+    | some t => ({ st with now := t }, "ok")
+    | none => (st, "bad-op")
+  | ["ins", m, t0, ttl] => match hexArg m, intArg t0, intArg ttl with
+    | some m, some t0, some ttl =>
+      let (s', rc, _) := Replay.insert st.replay ⟨m, t0, ttl⟩
+      ({ st with replay := s' }, s!"rc={rc} n={count s'}")
+    | _, _, _ => (st, "bad-op")
+  | ["rem", m, t0, ttl] => match hexArg m, intArg t0, intArg ttl with
+    | some m, some t0, some ttl =>
+      let (s', rc) := Replay.remove st.replay ⟨m, t0, ttl⟩
+      ({ st with replay := s' }, s!"rc={rc} n={count s'}")
+    | _, _, _ => (st, "bad-op")
+  | ["purge", t] => match intArg t with
+    | some t =>
+      let (s', k) := Replay.purge st.replay t
+      ({ st with replay := s', now := t },
+        s!"purged={k} n={count s'} rearm={if s'.table.isSome then purgeRearmMsecs else -1}")
+    | none => (st, "bad-op")
+  | ["find", m, e] => match hexArg m, intArg e with
+    | some m, some e =>
+      let r := match st.replay.table with
+        | some t => (Hash.find Replay.cmp keyf t ⟨m.take MAC_KEEP, e⟩).isSome
+        | none => false
+      (st, s!"found={if r then 1 else 0}")
+    | _, _ => (st, "bad-op")
+  | ["dump"] =>
+    let l := st.replay.items
+    (st, s!"n={count st.replay} " ++ (if l.isEmpty then "-" else String.intercalate "," (l.map showKey)))
+  | ["cmp", m1, e1, m2, e2] => match hexArg m1, intArg e1, hexArg m2, intArg e2 with
+    | some m1, some e1, some m2, some e2 =>
+      (st, s!"{sgn (Replay.cmp ⟨m1.take MAC_KEEP, e1⟩ ⟨m2.take MAC_KEEP, e2⟩)}")
+    | _, _, _, _ => (st, "bad-op")
+  | ["key", m] => match hexArg m with
+    | some m => (st, s!"{keyf ⟨m.take MAC_KEEP, 0⟩}")
+    | none => (st, "bad-op")
+  | ["exp", e, t] => match intArg e, intArg t with
+    | some e, some t => (st, s!"{isExpired t ⟨[], e⟩}")
+    | _, _ => (st, "bad-op")
+  | ["vt", t0, ttl, t1, mx, sk] => match ints [t0, ttl, t1, mx, sk] with
+    | some [t0, ttl, t1, mx, sk] =>
+      let o := dec_validate_time t0 ttl t1 mx sk
+      (st, s!"rc={o.ret} err={if o.ret < 0 then errOf o else 0} ttl={ttlAfter o ttl}")
+    | _ => (st, "bad-op")
+  | ["vr", m, t0, ttl, retry, gsr] => match hexArg m, ints [t0, ttl, retry, gsr] with
+    | some m, some [t0, ttl, retry, gsr] =>
+      let (s', ins, errno) := Replay.insert st.replay ⟨m, t0, ttl⟩
+      let o := dec_validate_replay retry gsr errno ins
+      ({ st with replay := s' }, s!"rc={o.ret} err={if o.ret < 0 then errOf o else 0} n={count s'}")
+    | _, _ => (st, "bad-op")
+  | ["req", m, t0, ttl, retry, pre, auth, send] =>
+    match hexArg m, ints [t0, ttl, retry, pre], b auth, b send with
+    | some m, some [t0, ttl, retry, pre], some auth, some send =>
+      let (d', o) := attempt genRollback st.cfg ⟨st.replay, st.now⟩ ⟨m, t0, ttl, retry, pre, auth, send⟩
+      ({ st with replay := d'.replay }, showOutcome o (count d'.replay))
+    | _, _, _, _ => (st, "bad-op")
+  | ["race", k, m, t0, ttl] => match natArg k, hexArg m, intArg t0, intArg ttl with
+    | some k, some m, some t0, some ttl =>
+      -- `replay_insert` is one atomic step: whatever the schedule, the k calls happen in some order
+      let (s', z, e, x) := (List.range k).foldl (fun (acc : Replay.State × Nat × Nat × Nat) _ =>
+        let (s, z, e, x) := acc
+        let (s', rc, _) := Replay.insert s ⟨m, t0, ttl⟩
+        if rc = 0 then (s', z + 1, e, x) else if rc = 1 then (s', z, e + 1, x) else (s', z, e, x + 1)) (st.replay, 0, 0, 0)
+      ({ st with replay := s' }, s!"zeros={z} ones={e} errs={x} n={count s'}")
+    | _, _, _, _ => (st, "bad-op")
+  | ["hnew", n, sh] => match natArg n, natArg sh with
+    | some n, some sh => ({ st with raw := Table.empty n, rawShift := sh }, "ok")
+    | _, _ => (st, "bad-op")
+  | ["hins", k] => match intArg k with
+    | some k =>
+      let (t', r) := Hash.insert rawCmp (rawKey st.rawShift) st.raw k
+      ({ st with raw := t' }, s!"r={if r then 1 else 0} n={t'.count}")
+    | none => (st, "bad-op")
+  | ["hrem", k] => match intArg k with
+    | some k =>
+      let (t', r) := Hash.remove rawCmp (rawKey st.rawShift) st.raw k
+      ({ st with raw := t' }, s!"r={match r with | some d => toString d | none => "-"} n={t'.count}")
+    | none => (st, "bad-op")
+  | ["hfind", k] => match intArg k with
+    | some k =>
+      (st, s!"r={match Hash.find rawCmp (rawKey st.rawShift) st.raw k with | some d => toString d | none => "-"}")
+    | none => (st, "bad-op")
+  | ["hdel", m, r] => match intArg m, intArg r with
+    | some m, some r =>
+      -- arg_f returns 1 when k % m = r, 0 when k % m = r + 1 (mod m), -1 otherwise
+      let f : Int → Int := fun k => if k % m = r then 1 else if k % m = (r + 1) % m then 0 else -1
+      let (t', n) := Hash.deleteIf f st.raw
+      ({ st with raw := t' }, s!"r={n} n={t'.count}")
+    | _, _ => (st, "bad-op")
+  | ["hdump"] =>
+    let l := st.raw.toList
+    (st, s!"n={st.raw.count} " ++ (if l.isEmpty then "-" else String.intercalate "," (l.map toString)))
+  | _ => (st, "bad-op")
 
 end Driver.Hash
